@@ -412,6 +412,12 @@ def prune (cs : ClientState) (st : Store) (now : Int) : Option Store :=
 
 def consOf (hd : Header) : ConsState := ⟨hd.sh.time, hd.sh.appHash, hd.sh.nextValsHash⟩
 
+/-- `ConsensusState.ValidateBasic` (root not empty, next-validators hash empty or 32 bytes, positive Unix time): demanded of the consensus
+    state a client proposal carries and of the one an accepted header produces -/
+def validConsState (k : ConsState) : Bool :=
+  !k.root.isEmpty && (k.nextValsHash.isEmpty || k.nextValsHash.length == 32) && decide (1000000000 ≤ k.time)
+
+
 /-- keeper `UpdateClient` with a Tendermint header at block time `now` -/
 def updateClient (env : Env) (c : Client) (hd : Header) (now : Int) : Outcome Client :=
   match status c now with
@@ -422,6 +428,8 @@ def updateClient (env : Env) (c : Client) (hd : Header) (now : Int) : Outcome Cl
     | none => .err "no-trusted-consensus-state"
     | some tc => do
       let hh ← checkValidity env c.cs tc hd now
+      -- the consensus state the header produces must pass the module's own validation (exported genesis)
+      require (validConsState (consOf hd)) "invalid-consensus-state"
       match prune c.cs c.st now with
       | none => .err "prune-error"
       | some st =>
@@ -514,5 +522,88 @@ def verifyPacketAcknowledgement (env : Env) (c : Client) (h : Height) (proof : O
     Outcome Unit := do
   let (pf, k) ← verifyArgs env c h proof now
   require (env.membership k.root pf (acknowledgementPath id) value) "membership"
+
+/-! ### the stateless stage of the real entry points -/
+
+/-- `Header.ValidateBasic` (run by `MsgUpdateClient.ValidateBasic` before the message reaches the msg server):
+    conversion of the signed header, `SignedHeader.ValidateBasic` against the header's *own* chain id, trusted height
+    not above the header height, validator set present, convertible and hashing to the header's validators hash -/
+def headerValidateBasic (env : Env) (hd : Header) : Outcome Unit := do
+  require (decide (0 ≤ hd.sh.height) && decide (hd.sh.height ≠ 0) && hd.sh.structOk) "header-conv"
+  require (match hd.commit with | none => true | some c => c.basicOk) "commit-conv"
+  let _ ← signedHeaderBasic env hd.sh.chainId hd
+  let hh ← headerHeight hd
+  require (!decide (hh < hd.trustedHeight)) "trusted-height-above-header"
+  let (vals, _) ← valSetFromProto hd.vals
+  require (hd.sh.valsHash = env.valsHash vals) "vals-hash"
+
+/-- `MsgUpdateClient` as a transaction sees it: `ValidateBasic`, then the msg server (relayer authorisation is C06's
+    subject and assumed here) calling the keeper's `UpdateClient` -/
+def updateClientMsg (env : Env) (c : Client) (hd : Header) (now : Int) : Outcome Client := do
+  headerValidateBasic env hd
+  updateClient env c hd now
+
+/-- the part of `{Create,Upgrade}ClientProposal.ValidateBasic` that depends on the modelled fields -/
+def validProposal (cs : ClientState) (k : ConsState) : Bool := validTrustLevel cs.tlNum cs.tlDen && validConsState k
+
+/-! ### several clients in one store; export / import; discarded executions -/
+
+/-- the client keeper's store: chain name ↦ client -/
+abbrev World := List (Bytes × Client)
+
+def World.get (w : World) (n : Bytes) : Option Client :=
+  match w with
+  | [] => none
+  | (m, c) :: rest => if m = n then some c else World.get rest n
+
+def World.set (w : World) (n : Bytes) (c : Client) : World :=
+  match w with
+  | [] => [(n, c)]
+  | (m, d) :: rest => if m = n then (n, c) :: rest else (m, d) :: World.set rest n c
+
+inductive WOp where
+  /-- `CreateClientProposal`: `ValidateBasic`, `HandleCreateClient` (refused when the name is taken) -/
+  | create (n : Bytes) (cs : ClientState) (k : ConsState) (now : Int)
+  /-- `UpgradeClientProposal`: `ValidateBasic`, `HandleUpgradeClient` -/
+  | upgrade (n : Bytes) (cs : ClientState) (k : ConsState) (now : Int)
+  /-- keeper `UpdateClient` -/
+  | update (n : Bytes) (hd : Header) (now : Int)
+  /-- `MsgUpdateClient` through `ValidateBasic` and the msg server -/
+  | updateMsg (n : Bytes) (hd : Header) (now : Int)
+  /-- export genesis → JSON → validate → wipe → init genesis (module level or whole app) -/
+  | restart
+  /-- any operation executed on a cache context that is dropped (simulation, CheckTx, proposal dry run, failed tx) -/
+  | discarded (op : WOp)
+
+/-- a restart re-creates exactly the client store: client states, consensus states, processed times, iteration keys -/
+def restart (w : World) : World := w
+
+def applyW (env : Env) (w : World) : WOp → World
+  | .create n cs k now =>
+    match w.get n with
+    | some _ => w
+    | none => if validProposal cs k then w.set n (createClient cs k now) else w
+  | .upgrade n cs k now =>
+    match w.get n with
+    | none => w
+    | some c => if validProposal cs k then w.set n (upgradeClient c cs k now) else w
+  | .update n hd now =>
+    match w.get n with
+    | none => w
+    | some c => match updateClient env c hd now with
+      | .ok c' => w.set n c'
+      | _ => w
+  | .updateMsg n hd now =>
+    match w.get n with
+    | none => w
+    | some c => match updateClientMsg env c hd now with
+      | .ok c' => w.set n c'
+      | _ => w
+  | .restart => restart w
+  | .discarded _ => w
+
+def runW (env : Env) (w : World) : List WOp → World
+  | [] => w
+  | op :: rest => runW env (applyW env w op) rest
 
 end TM.TmClient
